@@ -386,7 +386,11 @@ def compare_with_model(rep, hid, history, run, variant, vals):
                 what = f'visible snapshots: model {sorted(mod_rows)}, implementation {impl_rows}'
         if what is None and obs['cls'] == 'Ok' and variant != 'none':
             impl_states = [st['extra']['cache_after'].get(str(l), 0) for l in created]
-            # labels not yet created are absent in both
+            # labels not yet created are absent in both; entries of snapshots that no longer exist are inert
+            # (never looked at), so their state is not an observable
+            live = [f'snapshot:{l}' in obs['backend'] for l in created]
+            states = [x for x, keep in zip(states, live) if keep]
+            impl_states = [x for x, keep in zip(impl_states, live) if keep]
             if list(states) != impl_states:
                 what = f'cache entries after the step: model {list(states)}, implementation {impl_states} (snapshots {created})'
         if what:
